@@ -497,6 +497,31 @@ def reloadOld : List ReloadGroup → World → Oracle → World × List Out
     let r3 := reloadOld gs r2.1 o
     (r3.1, r1.2 ++ r2.2 ++ r3.2)
 
+/-! ### matching of the two generations (`InheritDialerHealthFrom`, by group name then node name) -/
+
+/-- a group of one generation as the hand-over sees it: model id of the group object, its name, and
+its member dialer objects with their names (the same name may denote distinct objects in different
+groups: per-group clones) -/
+structure GenGroup where
+  gid : Nat
+  gname : Nat
+  members : List (Nat × Nat)     -- (node id, node name)
+
+/-- Go map semantics of `m[k] = v` in a loop: the last entry with that key wins -/
+def lookupLast {β : Type} (p : β → Bool) (l : List β) : Option β := l.reverse.find? p
+
+/-- the (new node, old node) pairs of one new group: its namesake among the old groups
+(`previousGroups[group.Name]`), then per member the old member of that group with the same name
+(`oldDialers[d.Property().Name]`); nothing without a namesake / without a same-named member -/
+def matchGroup (olds : List GenGroup) (G : GenGroup) : List (Nat × Nat) :=
+  match lookupLast (fun og => og.gname == G.gname) olds with
+  | none => []
+  | some og => G.members.filterMap fun nm =>
+      (lookupLast (fun m => m.2 == nm.2) og.members).map fun m => (nm.1, m.1)
+
+def reloadGroupsOf (olds news : List GenGroup) (fb : Nat → Nat → Option Nat) : List ReloadGroup :=
+  news.map fun G => ⟨G.gid, fb G.gid, matchGroup olds G⟩
+
 /-! ### groups -/
 
 inductive Policy
